@@ -2348,6 +2348,14 @@ class TupleParser:
         if val is None:
             return None
 
+        if not isinstance(val, str):
+            # The element has a non-string CIM type
+            raise CIMXMLParseError(
+                _format("Embedded object value has invalid type {0} (the "
+                        "element with the EmbeddedObject attribute must "
+                        "have CIM type 'string')", type(val)),
+                conn_id=self.conn_id)
+
         # Perform the un-embedding (may raise XMLParseError)
         tup_tree = xml_to_tupletree_sax(val, "embedded object", self.conn_id)
 
